@@ -149,63 +149,89 @@ struct Target {
     sized: fn(usize, bool, u8) -> Frame,
 }
 
-const CALL_SIGMA: &[&str] = &["{}", "{\"a\":1}", "[]", "1", "{\"a\":\"x\"}", "{", "x", "{\"a\"", "}{", " {}", "{} ", "\n{}\t", " ", "{}x"];
+const CALL_SIGMA: &[&[u8]] = &[b"{}", b"{\"a\":1}", b"[]", b"1", b"{\"a\":\"x\"}", b"{", b"x", b"{\"a\"", b"}{", b" {}", b"{} ", b"\n{}\t", b" ", b"{}x", "{\"\u{e9}\":2}".as_bytes(), b"{\"\xff\":2}", b"{\"b\":\"\\u0000\"}", "{\"\u{e9}\u{e9}\":\"\u{fc}\"}".as_bytes()];
 
+/// `n` bytes of string content: letters, with a two-byte character (U+00E9) every few bytes so that
+/// every stretch of eight bytes holds bytes above 0x7f.
 fn filler(n: usize, salt: u8) -> String {
-    (0..n).map(|i| (b'a' + ((i as u8).wrapping_add(salt) % 26)) as char).collect()
+    let mut s = String::with_capacity(n);
+    let mut i = 0usize;
+    while s.len() < n {
+        if i % 5 == 3 && s.len() + 2 <= n {
+            s.push('\u{e9}');
+        } else {
+            s.push((b'a' + ((i as u8).wrapping_add(salt) % 26)) as char);
+        }
+        i += 1;
+    }
+    s
+}
+
+/// `n` bytes of garbage for malformed frames: anything but NUL, including control bytes, 0x7f, and
+/// bytes that are not UTF-8.
+fn garbage(n: usize, salt: u8) -> Vec<u8> {
+    const ODD: [u8; 8] = [0x01, 0x7f, 0x80, 0xff, 0x1f, 0xc3, 0xfe, 0x81];
+    (0..n).map(|i| if i % 3 == 1 { ODD[(i / 3 + salt as usize) % ODD.len()] } else { b'a' + ((i as u8).wrapping_add(salt) % 26) }).collect()
 }
 
 fn sized_call<M: for<'a> Deserialize<'a> + std::fmt::Debug>(size: usize, valid: bool, salt: u8) -> Frame {
-    let s = if !valid || size < 2 {
+    let s: Vec<u8> = if !valid || size < 2 {
         if size == 1 {
-            "1".to_string()
+            b"1".to_vec()
         } else {
-            format!("{{{}", filler(size - 1, salt))
+            malformed(size, salt)
         }
     } else if size < 8 {
-        format!("{{{}}}", " ".repeat(size - 2))
+        format!("{{{}}}", " ".repeat(size - 2)).into_bytes()
     } else {
-        format!("{{\"x\":\"{}\"}}", filler(size - 8, salt))
+        format!("{{\"x\":\"{}\"}}", filler(size - 8, salt)).into_bytes()
     };
     assert_eq!(s.len(), size);
-    let expect = oracle_call::<M>(s.as_bytes());
+    let expect = oracle_call::<M>(&s);
     if valid && size >= 2 && expect == "err" {
         xplore::bug!("sized valid frame does not decode");
     }
-    Frame { bytes: s.into_bytes(), expect }
+    Frame { bytes: s, expect }
+}
+/// `{` followed by garbage.
+fn malformed(size: usize, salt: u8) -> Vec<u8> {
+    let mut v = vec![b'{'];
+    v.extend(garbage(size - 1, salt));
+    v
 }
 fn sized_call_meth(size: usize, valid: bool, salt: u8) -> Frame {
     // {"method":"a.P","parameters":{"s":""}} is 38 bytes
-    let s = if valid && size >= 38 {
-        format!("{{\"method\":\"a.P\",\"parameters\":{{\"s\":\"{}\"}}}}", filler(size - 38, salt))
+    let s: Vec<u8> = if valid && size >= 38 {
+        format!("{{\"method\":\"a.P\",\"parameters\":{{\"s\":\"{}\"}}}}", filler(size - 38, salt)).into_bytes()
     } else if size == 1 {
-        "1".to_string()
+        b"1".to_vec()
     } else {
-        format!("{{{}", filler(size - 1, salt))
+        malformed(size, salt)
     };
     assert_eq!(s.len(), size);
-    let expect = oracle_call::<Meth<'_>>(s.as_bytes());
-    Frame { bytes: s.into_bytes(), expect }
+    let s: &'static [u8] = Box::leak(s.into_boxed_slice());
+    let expect = oracle_call::<Meth<'_>>(s);
+    Frame { bytes: s.to_vec(), expect }
 }
 fn sized_reply<P: for<'a> Deserialize<'a> + std::fmt::Debug>(size: usize, valid: bool, salt: u8) -> Frame {
     // {"continues":true,"x":""} is 25 bytes: an unknown member carries the padding so that the
     // frame is a success for every parameter type
-    let (s, k) = if valid && size >= 25 {
-        (format!("{{\"continues\":true,\"x\":\"{}\"}}", filler(size - 25, salt)), RK::Success)
+    let (s, k): (Vec<u8>, RK) = if valid && size >= 25 {
+        (format!("{{\"continues\":true,\"x\":\"{}\"}}", filler(size - 25, salt)).into_bytes(), RK::Success)
     } else if valid && (2..8).contains(&size) {
-        (format!("{{{}}}", " ".repeat(size - 2)), RK::Success)
+        (format!("{{{}}}", " ".repeat(size - 2)).into_bytes(), RK::Success)
     } else if size == 1 {
-        ("1".to_string(), RK::Bad)
+        (b"1".to_vec(), RK::Bad)
     } else {
-        (format!("{{{}", filler(size - 1, salt)), RK::Bad)
+        (malformed(size, salt), RK::Bad)
     };
     assert_eq!(s.len(), size);
-    let expect = oracle_reply::<P>(s.as_bytes(), k);
-    Frame { bytes: s.into_bytes(), expect }
+    let expect = oracle_reply::<P>(&s, k);
+    Frame { bytes: s, expect }
 }
 
 fn targets() -> Vec<Target> {
-    let call_sigma = |f: fn(&[u8]) -> String| -> Vec<Frame> { CALL_SIGMA.iter().map(|s| Frame { bytes: s.as_bytes().to_vec(), expect: f(s.as_bytes()) }).collect() };
+    let call_sigma = |f: fn(&[u8]) -> String| -> Vec<Frame> { CALL_SIGMA.iter().map(|s| Frame { bytes: s.to_vec(), expect: f(s) }).collect() };
     let meth_sigma: Vec<Frame> = [
         "{\"method\":\"a.U\"}",
         "{\"method\":\"a.P\",\"parameters\":{\"s\":\"q\"}}",
@@ -260,7 +286,12 @@ enum Mode {
     Growth { near_only: bool },
     /// 2..=40 tiny frames arriving together
     Burst,
+    /// 2..=3 frames of 100..300 bytes each (the buffer grows while earlier frames are still in it);
+    /// reads may end early next to a growth step or a frame boundary
+    Medium,
 }
+
+const MEDIUM_SIZES: &[usize] = &[100, 155, 156, 200, 255, 256, 300];
 
 const GROWTH_SIZES: &[usize] = &[
     1, 2, 3, 4, 5, 6, 7, 8, 9, 10, 11, 12, 13, 14, 15, 16, 17, 18, 19, 20, 250, 251, 252, 253, 254, 255, 256, 257, 258, 259, 260, 261, 262, 506, 507, 508, 509, 510, 511, 512, 513, 514,
@@ -288,6 +319,7 @@ impl Framing {
             Mode::Small { max_frames, all_upto } => json!({"small": {"max_frames": max_frames, "all_upto": all_upto}}),
             Mode::Growth { near_only } => json!({"growth": {"near_only": near_only}}),
             Mode::Burst => json!("burst"),
+            Mode::Medium => json!("medium"),
         };
         json!({"target": self.target, "target_name": self.targets[self.target].name, "mode": mode, "cancel": self.cancel})
     }
@@ -297,6 +329,8 @@ impl Framing {
         let m = &v["mode"];
         let mode = if m == "burst" {
             Mode::Burst
+        } else if m == "medium" {
+            Mode::Medium
         } else if let Some(s) = m.get("small") {
             Mode::Small { max_frames: s["max_frames"].as_u64()? as usize, all_upto: s["all_upto"].as_u64()? as usize }
         } else if let Some(g) = m.get("growth") {
@@ -315,6 +349,7 @@ impl Harness for Framing {
         let mut frames: Vec<Frame> = Vec::new();
         let mut policy = ReadPolicy::PartitionDev;
         let mut filter: Option<fn(usize) -> bool> = None;
+        let mut cut_set: Option<std::collections::BTreeSet<usize>> = None;
         match &self.mode {
             Mode::Small { max_frames, all_upto } => {
                 let n = 1 + cx.choose(*max_frames, "frames:count-1");
@@ -354,6 +389,28 @@ impl Harness for Framing {
                     cx.goal("frame-ends-at-step");
                 }
             }
+            Mode::Medium => {
+                let n = 2 + cx.choose(2, "medium:count-2");
+                let bad = cx.choose(3, "medium:all-valid|first-malformed|last-malformed");
+                let mut set = std::collections::BTreeSet::new();
+                let mut pos = 0usize;
+                for i in 0..n {
+                    let size = MEDIUM_SIZES[cx.choose(MEDIUM_SIZES.len(), "medium:size")];
+                    let valid = !((bad == 1 && i == 0) || (bad == 2 && i == n - 1));
+                    frames.push((t.sized)(size, valid, 5 + i as u8));
+                    pos += size + 1;
+                    for d in [pos - 2, pos - 1, pos, pos + 1] {
+                        set.insert(d);
+                    }
+                }
+                for step in (256..pos).step_by(256) {
+                    for d in step - 1..=step + 1 {
+                        set.insert(d);
+                    }
+                }
+                cut_set = Some(set);
+                cx.goal("buffer-grows-behind-an-earlier-frame");
+            }
             Mode::Burst => {
                 let n = 2 + cx.choose(39, "burst:count-2");
                 let off = cx.choose(t.sigma.len(), "burst:first-kind");
@@ -379,6 +436,7 @@ impl Harness for Framing {
         let pend = if self.cancel { PendPolicy::ChoiceFree } else { PendPolicy::Never };
         let wire = Wire::stream(cx, &stream, policy, pend);
         wire.0.borrow_mut().cut_filter = filter;
+        wire.0.borrow_mut().cut_set = cut_set;
         let mut conn = wire.connection();
 
         // 3. receive, comparing after every step
@@ -448,6 +506,7 @@ fn phases(tier: Tier, cancel: bool) -> Vec<(String, usize, Mode, u32)> {
                 v.push((format!("growth-near-step-cuts/t{t}"), t, Mode::Growth { near_only: true }, 1));
             }
             v.push((format!("burst/t{t}"), t, Mode::Burst, tier.pick(1, 2)));
+            v.push((format!("medium/t{t}"), t, Mode::Medium, if main { tier.pick(2, 3) } else { tier.pick(1, 2) }));
         } else {
             // C07: every read poll may be pending, every pending may be followed by a cancellation
             let (mf, upto, b) = match (tier, main) {
@@ -459,6 +518,7 @@ fn phases(tier: Tier, cancel: bool) -> Vec<(String, usize, Mode, u32)> {
             v.push((format!("cancel-small/t{t}"), t, Mode::Small { max_frames: mf, all_upto: upto }, b));
             if main || tier == Tier::Thorough {
                 v.push((format!("cancel-growth/t{t}"), t, Mode::Growth { near_only: true }, tier.pick(1, 2)));
+                v.push((format!("cancel-medium/t{t}"), t, Mode::Medium, tier.pick(1, 2)));
             }
         }
     }
@@ -468,7 +528,7 @@ fn phases(tier: Tier, cancel: bool) -> Vec<(String, usize, Mode, u32)> {
 fn run(prop: &str, tier: Tier, cancel: bool) -> i32 {
     let mut rep = Report::new(prop, tier.name());
     rep.rule = if !cancel {
-        "DFS by re-execution over: frame sequence (alphabet^<=3 per target type; one frame of every growth-boundary size alone/after/before a tiny frame; bursts of 2..40 tiny frames) x what every transport read returns (every partition of the byte stream for short streams, every cut set up to the deviation budget otherwise). An execution is one complete receive history on a fresh Connection; outcomes are distinct (result sequence, number of reads)".to_string()
+        "DFS by re-execution over: frame sequence (alphabet^<=3 per target type; one frame of every growth-boundary size alone/after/before a tiny frame; bursts of 2..40 tiny frames; 2..3 frames of 100..300 bytes each, so that the buffer grows while earlier frames are still in it, with reads ending early next to growth steps and frame boundaries) x what every transport read returns (every partition of the byte stream for short streams, every cut set up to the deviation budget otherwise). An execution is one complete receive history on a fresh Connection; outcomes are distinct (result sequence, number of reads)".to_string()
     } else {
         "as C01, plus at every transport read poll the choice {ready, pending} and after every pending the choice {re-poll the same receive future, drop it and create a new one}; every subset of suspension points is cancelled for the short streams".to_string()
     };
@@ -484,6 +544,7 @@ fn run(prop: &str, tier: Tier, cancel: bool) -> i32 {
         rep.require_goal("burst");
     }
     rep.require_goal("frame-crosses-growth-step");
+    rep.require_goal("buffer-grows-behind-an-earlier-frame");
     if cancel {
         rep.require_goal("receive-cancelled");
     }
